@@ -1,6 +1,8 @@
 package ext
 
 import (
+	"strings"
+
 	"github.com/alligator/jqawk/cli"
 	lang "github.com/alligator/jqawk/src"
 	"github.com/alligator/jqawk/zzverif/vh"
@@ -131,6 +133,13 @@ func VHC14Wrapper() {
 		args = append(args, "-o", "-")
 	case 2:
 		args = append(args, "-o", "out.json")
+		// the output file may exist already, shorter or longer than what is written now
+		switch vh.Choose("existing", 3) {
+		case 1:
+			p.Texts["out.json"] = "{}"
+		case 2:
+			p.Texts["out.json"] = "[\n" + strings.Repeat("  \"old old old old\",\n", 40) + "  0\n]\n"
+		}
 	}
 	if src == 1 {
 		p.Texts["prog.jqawk"] = prog
